@@ -291,6 +291,9 @@ func gen(thorough bool, emit func(tcase)) {
 		class := identClass(name)
 		risky := class != "ident/plain"
 		emit(tcase{Class: class + "/variable", Src: name + " := 5\n" + name, Kind: "repr", Strs: []string{"5"}, Risky: risky})
+		if !risky {
+			emit(tcase{Class: class + "/variable-read-from-nested-functions", Src: name + " := 5\n[{|| " + name + "}(), {|zq| {|| [zq, " + name + "]}()}(1)]", Kind: "repr", Strs: []string{"[5, [1, 5]]"}})
+		}
 		emit(tcase{Class: class + "/property", Src: "{" + name + ": 5}." + name, Kind: "repr", Strs: []string{"5"}, Risky: risky})
 		emit(tcase{Class: class + "/symbol", Src: "'" + name, Kind: "str", Strs: []string{name}, Risky: risky})
 		emit(tcase{Class: class + "/call", Src: name + " := {|x| x}\n" + name + "(5)", Kind: "repr", Strs: []string{"5"}, Risky: risky})
@@ -346,6 +349,18 @@ func gen(thorough bool, emit func(tcase)) {
 		}
 	}
 	words("aZ7_?!", idLen, emitName)
+	// names that the root scope defines itself are names like any other
+	for _, n := range []string{"Int", "Str", "Arr", "Obj", "Map", "Nil", "Float", "Func", "Iter", "Range", "Err", "Either", "Kernel", "Iterable", "Comparable", "true", "false", "nil", "assert", "import"} {
+		emit(tcase{Class: "ident/root-scope-name/variable-read-from-nested-functions", Src: "{||\n" + n + " := 5\n[{|| " + n + "}(), {|zq| {|| [zq, " + n + "]}()}(1)]\n}()", Kind: "repr", Strs: []string{"[5, [1, 5]]"}})
+		emit(tcase{Class: "ident/root-scope-name/parameter", Src: "{|" + n + "| [" + n + ", {|| " + n + "}()]}(5)", Kind: "repr", Strs: []string{"[5, 5]"}})
+	}
+	// a text that stops being read in the middle of an interpolated str leaves nothing behind: the texts read afterwards
+	// (by the same program, through Str#eval) denote what they denote on their own
+	for _, bad := range []string{"`\"total: #{1 1}\"`", "`\"x#{`", "`\"a#{99999999999999999999}b\"`", "`\"p#{(}q\"`", "`\"#{1}#{2 2}\"`"} {
+		for _, good := range [][2]string{{"`[{a: 1}, \"b\"]`", `[{"a": 1}, "b"]`}, {"`{|x| x}(\"a}b\")`", `"a}b"`}, {"`{a: 1}; \"s}\" + \"}t\"`", `"s}}t"`}, {"`[\"#{1}\", {k: \"v\"}, \"w\"]`", `["1", {"k": "v"}, "w"]`}} {
+			emit(tcase{Class: "embedded/read-after-an-aborted-read", Src: "[" + bad + ".try.eval.err?, " + good[0] + ".eval, " + bad + ".try.eval.err?, " + good[0] + ".eval]", Kind: "repr", Strs: []string{"[true, " + good[1] + ", true, " + good[1] + "]"}})
+		}
+	}
 	// long names: every length around powers of two up to 1025 (thorough 4097), in 4 spellings
 	maxLong := 1025
 	if thorough {
